@@ -33,6 +33,8 @@ def make_scratch(tag):
             shutil.copytree(src, os.path.join(d, sub))
         else:
             shutil.copy(src, os.path.join(d, sub))
+    os.makedirs(os.path.join(d, "build", "test"), exist_ok=True)
+    os.makedirs(os.path.join(d, "build", "benches"), exist_ok=True)
     return d
 
 
